@@ -322,9 +322,15 @@ func (s *Stream) close() error {
 			}
 			vpo(vpStreamCloseBeforeNotify, s, 0)
 			// notify peer
-			err := s.session.sendQueue().put(queueElement{seqID: s.id, status: uint32(streamClosed)})
+			// a stream in fallback state sent its data on the socket, its close must not overtake them through the queue
+			var err error = ErrQueueFull
+			if !s.inFallbackState {
+				err = s.session.sendQueue().put(queueElement{seqID: s.id, status: uint32(streamClosed)})
+				if err != nil {
+					atomic.AddUint64(&s.session.stats.queueFullErrorCount, 1)
+				}
+			}
 			if err != nil {
-				atomic.AddUint64(&s.session.stats.queueFullErrorCount, 1)
 				// notify fallback
 				var streamCloseEvent [headerSize + 4]byte
 				header(streamCloseEvent[:]).encode(headerSize+4, s.session.communicationVersion, typeStreamClose)
